@@ -23,6 +23,9 @@ def HiOK (r : VRange) (p : Version) : Prop := ∀ M, r.max = some M → r.imax =
 /-- the probe is fine for both ends -/
 def OKat (r : VRange) (p : Version) : Prop := r.LoOK p ∧ r.HiOK p
 
+/-- half-open: an inclusive lower end (if any) and an exclusive upper end (if any) -/
+def HalfOpen (r : VRange) : Prop := (∀ m, r.min = some m → r.imin = true) ∧ (∀ M, r.max = some M → r.imax = false)
+
 theorem OKat_of_regular {r : VRange} {p : Version} (h : Regular r.bounds p) : r.OKat p :=
   ⟨fun m hm => Or.inr (h.reg1 (mem_bounds_min hm)), fun M hM => Or.inr (h.reg1 (mem_bounds_max hM))⟩
 
